@@ -65,7 +65,9 @@ func (n *Number) AddFrac(b byte) {
 	case n.Frac <= BigLimit && n.Div <= BigLimit:
 		n.Frac = n.Frac*10 + uint64(b-'0')
 		n.Div *= 10.0
-		if math.MaxInt64 < n.Frac {
+		if math.MaxInt64 < n.Frac || BigLimit <= n.Div {
+			// The same limit as in the parser loops that read a fraction
+			// in one go, so a number is the same however it is read.
 			n.FillBig()
 		}
 	default: // big
